@@ -398,6 +398,9 @@ func runC05(c *kit.Ctx) {
 				if len(all) > 0 {
 					s := all[rng.Intn(len(all))]
 					media.Unregist(s)
+					if media.VerifStatus(s) == media.StreamOK {
+						c.Violation("C05:sequential:unregistered-stream-not-closed", map[string]interface{}{"case": si, "history": hist})
+					}
 					consCount[s] = 0
 					for k, v := range model {
 						if v == s {
